@@ -27,6 +27,7 @@ M0 == [calls |-> <<>>,        \* k -> call record (function with a growing domai
        ready |-> FALSE,
        cleanup |-> FALSE,     \* the harness' own clean-up has begun: nothing after it is judged except the final line
        closeB |-> {}, closeE |-> {}, waitB |-> {}, waitE |-> {},
+       stalled |-> {},        \* transport writes that are blocked because the peer stopped draining
        notices |-> {},        \* wire ids named by cancellation notices handed to the transport
        notifOk |-> {},        \* refs of notifications the transport accepted
        usable |-> TRUE]       \* no Close, fault or reader error so far
@@ -83,7 +84,7 @@ OnWrEnd(e) ==
   LET bad == e.outcome \in {"broken", "rejected"} IN
   /\ Check(l, "C02.AnsweredAtMostOnce",
            (e.kind = "resp" /\ e.outcome = "ok" /\ m.ready) => Idn(e.id).resp + 1 <= Idn(e.id).deliv)
-  /\ m' = [m EXCEPT !.fault = @ \/ (bad /\ m.ready), !.broken = @ \/ (e.outcome = "broken" /\ m.ready),
+  /\ m' = [m EXCEPT !.stalled = @ \ {e.w}, !.fault = @ \/ (bad /\ m.ready), !.broken = @ \/ (e.outcome = "broken" /\ m.ready),
                     !.usable = @ /\ ~(bad /\ m.ready),
                     !.idn = IF e.kind = "resp" /\ e.outcome = "ok" /\ m.ready THEN Put(m.idn, e.id, [Idn(e.id) EXCEPT !.resp = @ + 1]) ELSE @,
                     !.notifOk = IF e.kind = "notif" /\ e.outcome = "ok" THEN @ \cup {e.ref} ELSE @,
@@ -160,7 +161,8 @@ OnQuiesce1(e) ==
                \A i \in DOMAIN m.idn : m.idn[i].deliv > 1 => m.idn[i].resp = m.idn[i].deliv)
   \* a graceful Close waits for outgoing calls that the peer still owes an answer to (and whose callers
   \* have not given up); with none of those outstanding, every Close has returned
-  /\ Check(l, "C05.CloseReturns", e.blockedCalls = <<>> => m.closeB \subseteq m.closeE)
+  \* (and no transport write is blocked by a peer that stopped draining: that is the environment's debt)
+  /\ Check(l, "C05.CloseReturns", (e.blockedCalls = <<>> /\ m.stalled = {}) => m.closeB \subseteq m.closeE)
   /\ Check(l, "C05.WaitReturns", m.term => m.waitB \subseteq m.waitE)
   /\ Check(l, "C05.Removed", m.term => ~e.sessions)
   /\ Check(l, "C05.HandlersRanToCompletion", \A r \in DOMAIN m.reqs : m.reqs[r].started => m.reqs[r].ended)
@@ -182,7 +184,7 @@ Step(e) ==
     [] e.ev = "wr.begin"   -> OnWrBegin(e)
     [] e.ev = "wr.end"     -> OnWrEnd(e)
     [] e.ev = "rd.deliver" -> OnDeliver(e)
-    [] e.ev = "wr.stall"   -> m' = [m EXCEPT !.usable = FALSE]
+    [] e.ev = "wr.stall"   -> m' = [m EXCEPT !.usable = FALSE, !.stalled = @ \cup {e.w}]
     [] e.ev = "rd.inject"  -> m' = [m EXCEPT !.rdDown = TRUE, !.usable = FALSE]
     [] e.ev = "h.start"    -> OnHStart(e)
     [] e.ev = "h.ctxdone"  -> OnHCtxDone(e)
